@@ -455,8 +455,7 @@ def _op_replace(pool, op, ctx, prefix):
     res = run.result
     where = "replace (history)"
     refmodel.structural_invariants(res, where)
-    E, stats, removed = c06._expected_after_replace(ctx, m, Rmod, sp, run, res, smap, False)
-    refmodel.compare(refmodel.abstract(res), E, prefix, where, order="any", pos_tol=0.0)
+    E, stats, removed = c06.check_replace_result(ctx, m, Rmod, sp, run, res, smap, False, prefix, where)
     ctx.count("history_replacements", run.reported)
     i = pool.add(res, refmodel.abstract(res))
     return {i}
